@@ -54,7 +54,51 @@ def check(repo: Repo) -> Result:
 
     r7 = res.rule("C12-R7", "the rows the lookup derives are the rows the purge recognises: a derived prefixed row is stored as NOT prefixable (the flag _forget_prefixed tells derived rows by), under prefix + symbol, with scale = base scale * prefix value (shared with C02-R2)", floor=3)
     share(res, r7, "C02", lambda t: c02.prefix_composition(repo, t), ["C02-R2"], want=lambda k: k in ("not-prefixable", "store-key", "scale", "returns"), min_keys=3)
+    derived_units_keep_their_value(repo, res)
     return res
+
+
+def derived_units_keep_their_value(repo, res):
+    """'Unit objects created before an edit keep the value they had' - and so does every unit derived from one: a method
+    of Unit that builds a new Unit out of its own expression (a rewritten, simplified or copied form of self.expr) hands
+    over its own scale, offset and dimensions.  `Unit(<expression from self>, registry=self.registry)` alone makes the
+    constructor look the symbols up again in the registry's *current* table."""
+    from engine.memo import local_defs, roots
+
+    r8 = res.rule("C12-R8", "a Unit method that builds a unit from its own expression passes its own scale and dimensions (no second look-up in the registry's current table): units derived from a pre-edit unit keep the pre-edit value", floor=1)
+    uo = repo.mod(UO)
+    n = 0
+    for q, fns in uo.funcs.items():
+        if not q.startswith("Unit.") or q.count(".") != 1 or q == "Unit.__new__":
+            continue
+        for f in fns:
+            if not f.params:
+                continue
+            me = f.params[0]
+            defs, opaque = local_defs(f)
+            for c in walk_no_nested(f.node):
+                if not (isinstance(c, ast.Call) and norm(c.func) in ("Unit", "cls", f"type({me})", f"{me}.__class__") and c.args):
+                    continue
+                a0 = c.args[0]
+                # does the first argument derive from self.expr?
+                reads_expr = False
+                stack, seen = [a0], set()
+                while stack:
+                    e = stack.pop()
+                    for x in ast.walk(e):
+                        if isinstance(x, ast.Attribute) and x.attr == "expr" and isinstance(x.value, ast.Name) and x.value.id == me:
+                            reads_expr = True
+                        if isinstance(x, ast.Name) and x.id in defs and x.id not in seen:
+                            seen.add(x.id)
+                            stack.extend(defs[x.id])
+                if not reads_expr:
+                    continue
+                n += 1
+                kws = {k.arg for k in c.keywords}
+                has_values = len(c.args) >= 2 or "base_value" in kws
+                res.check(has_values, f"derived:{q}:{norm(a0)[:30]}", f.where(c), f"{q} builds a Unit from its own expression without handing over its scale and dimensions: the constructor resolves the symbols in the registry's current table, so a unit made before registry.modify() / re-add changes value when it is simplified, copied or rewritten (a_old / (1 m) takes the new definition)", "base_value / base_offset / dimensions of self passed along", norm(c)[:100], rid=r8)
+    if n == 0:
+        res.ok("no-self-expression-constructions", r8)
 
 
 def inventory(repo, res):
@@ -340,6 +384,8 @@ MUTANTS = [
     Mutant("purge-divides-prefix-out", REG, "UnitRegistry._forget_prefixed", "and derived[:3] == (entry[0] * prefix_value, entry[1], entry[2])", "and (derived[0] / prefix_value, derived[1], derived[2]) == entry[:3]", ("C12-R2",)),
     Mutant("purge-product-commuted", REG, "UnitRegistry._forget_prefixed", "and derived[:3] == (entry[0] * prefix_value, entry[1], entry[2])", "and derived[:3] == (prefix_value * entry[0], entry[1], entry[2])", (), benign=True),
     Mutant("hash-without-expr", UO, "Unit.__hash__", "hash(self.expr)", "hash(self.base_value)", ("C12-R5",)),
+    Mutant("copy-looks-the-table-up-again", UO, "Unit.copy", "        return Unit(expr, base_value, base_offset, dimensions, registry)", "        return Unit(expr, registry=registry)", ("C12-R8",)),
+    Mutant("simplify-returns-relooked-up-unit", UO, "Unit.simplify", "        self.expr = _cancel_mul(expr, self.registry)\n        return self", "        return Unit(_cancel_mul(expr, self.registry), registry=self.registry)", ("C12-R8",)),
     Mutant("deepcopy-shares-table", "unyt/unit_registry.py", "UnitRegistry.__deepcopy__", "lut = dict(self.lut)", "lut = self.lut", ("C12-R6",)),
     Mutant("deepcopy-readds-defaults", "unyt/unit_registry.py", "UnitRegistry.__deepcopy__", "add_default_symbols=False, lut=lut, unit_system=self.unit_system", "lut=lut, unit_system=self.unit_system", ("C12-R6",)),
 ]
